@@ -403,9 +403,11 @@ MUTANTS += [
  dict(id='R1-remaining-benign-rename', props=['C01', 'C04'], expect='SILENT',
       edits=[(MS, 'skipped := uint32(loaded.bitmap.CountSet())\n\t\t\tif skipped > totalChunks {\n\t\t\t\tskipped = totalChunks\n\t\t\t}\n\t\t\tif totalChunks >= skipped {\n\t\t\t\tstate.remaining = totalChunks - skipped\n\t\t\t}\n\t\t\tstate.needEnd = skipped > 0',
                   'have := uint32(loaded.bitmap.CountSet())\n\t\t\tif have > totalChunks {\n\t\t\t\thave = totalChunks\n\t\t\t}\n\t\t\tif totalChunks >= have {\n\t\t\t\tstate.remaining = totalChunks - have\n\t\t\t}\n\t\t\tstate.needEnd = have > 0')]),
- dict(id='R1-fullread-check-dropped', props=['C02'], expect='R-FULL-READ/full-read/',
+ # reclassified in round 12 (with the R-FULL-READ correction of DESIGN 8.22): the frame carries exactly the bytes read and the receiver
+ # refuses a length other than the chunk's place takes, so a short read fails loudly on both sides
+ dict(id='R1-fullread-check-dropped', props=['C02', 'C01'], expect='SILENT',
       edits=[(MS, '\t\t\t\tif n != int(chunkLen) {\n\t\t\t\t\tbufPool.Put(buf)\n\t\t\t\t\tif err == nil {\n\t\t\t\t\t\terr = io.ErrUnexpectedEOF\n\t\t\t\t\t}\n\t\t\t\t\tsetErr(fmt.Errorf("short read for %s: got %d want %d", state.item.RelPath, n, chunkLen))\n\t\t\t\t\treturn\n\t\t\t\t}\n', '')]),
- dict(id='R1-fullread-only-zero', props=['C02'], expect='R-FULL-READ/full-read/',
+ dict(id='R1-fullread-only-zero', props=['C02', 'C01'], expect='SILENT',
       edits=[(MS, '\t\t\t\tif n != int(chunkLen) {\n\t\t\t\t\tbufPool.Put(buf)\n\t\t\t\t\tif err == nil {', '\t\t\t\tif n == 0 {\n\t\t\t\t\tbufPool.Put(buf)\n\t\t\t\t\tif err == nil {')]),
  dict(id='R1-fullread-benign-less-than', props=['C02', 'C01'], expect='SILENT',
       edits=[(MS, '\t\t\t\tif n != int(chunkLen) {\n\t\t\t\t\tbufPool.Put(buf)\n\t\t\t\t\tif err == nil {', '\t\t\t\tif n < int(chunkLen) {\n\t\t\t\t\tbufPool.Put(buf)\n\t\t\t\t\tif err == nil {')]),
